@@ -323,8 +323,7 @@ pub fn run_parent<E: Engine>(eng: &E, cfg: ParentCfg) -> i32 {
     let dir = out_base().join("target").join("runs").join(format!("{}-{}-{}", cfg.engine_name, cfg.prop, cfg.tier));
     let _ = std::fs::remove_dir_all(&dir);
     std::fs::create_dir_all(&dir).expect("run dir");
-    let mut kids = Vec::new();
-    for w in 0..cfg.workers {
+    let spawn_worker = |w: u64| -> (u64, PathBuf, std::process::Child) {
         let out = dir.join(format!("w{}.json", w));
         let mut c = std::process::Command::new(&exe);
         c.args(&cfg.exe_args)
@@ -336,14 +335,43 @@ pub fn run_parent<E: Engine>(eng: &E, cfg: ParentCfg) -> i32 {
             .arg(cfg.cases_per_worker.to_string())
             .arg(&out)
             .env("RUST_BACKTRACE", "0");
-        kids.push((w, out, c.spawn().expect("spawn worker")));
+        // process creation can fail transiently on an overloaded machine: retry
+        let mut tries = 0;
+        loop {
+            match c.spawn() {
+                Ok(k) => return (w, out, k),
+                Err(e) => {
+                    tries += 1;
+                    if tries > 100 {
+                        panic!("spawn worker: {}", e);
+                    }
+                    std::thread::sleep(std::time::Duration::from_millis(100));
+                }
+            }
+        }
+    };
+    let mut kids = Vec::new();
+    for w in 0..cfg.workers {
+        kids.push(spawn_worker(w));
     }
     let mut merged = Stats::default();
     let mut failures: Vec<Value> = Vec::new();
     let mut crashed: Vec<(u64, String)> = Vec::new();
     let mut hangs: Vec<(u64, String)> = Vec::new();
     for (w, out, mut k) in kids {
-        let st = k.wait().expect("wait worker");
+        let mut st = k.wait().expect("wait worker");
+        if !out.exists() {
+            // the worker died without a result (signal, abort, resource exhaustion).  Run its
+            // share once more: if it dies again the death belongs to its current case; if it
+            // completes, the first death was environmental and is only recorded.
+            let first_case = std::fs::read_to_string(out.with_extension("cur")).unwrap_or_default();
+            let (_, _, mut k2) = spawn_worker(w);
+            let st2 = k2.wait().expect("wait worker");
+            if out.exists() {
+                crashed.push((w, format!("first attempt died with {:?} (case {}), second attempt completed", st, first_case.trim().chars().take(80).collect::<String>())));
+            }
+            st = st2;
+        }
         let cur = out.with_extension("cur");
         match std::fs::read(&out).ok().and_then(|b| serde_json::from_slice::<Value>(&b).ok()) {
             Some(v) => {
